@@ -62,4 +62,11 @@ for sid in sorted(os.listdir(os.path.join(d, "seeded"))):
         print(sid, json.dumps(r), flush=True)
     finally:
         sh("git -C %s checkout -- ." % REPO)
-json.dump(res, open(rp, "w"), indent=1, sort_keys=True)
+# several runs may finish at about the same time: merge into the file under a lock, only the entries of this run
+import fcntl
+mine = {k: v for k, v in res.items() if not args or k in args}
+with open(rp + ".lock", "w") as lk:
+    fcntl.flock(lk, fcntl.LOCK_EX)
+    cur = json.load(open(rp)) if os.path.exists(rp) else {}
+    cur.update(mine)
+    json.dump(cur, open(rp, "w"), indent=1, sort_keys=True)
